@@ -95,15 +95,14 @@ func runConcurrent(r *vh.Run, rng *vh.RNG, name string, t *chainx.Tree, sched []
 			fail("submission-panic", "concurrent: AddBlocks(%v) panicked: %s", batch, c01.LastPanic)
 			break
 		}
-		at, ok := t.Lookup(nd.CM.Tip().ID)
+		at, _ := t.Lookup(nd.CM.Tip().ID)
+		failedTarget := -1
 		if res == "reorg-failed" {
-			at = batch[len(batch)-1]
+			failedTarget = batch[len(batch)-1]
 		}
-		if ok && at != bt && t.Blocks[at].Parent != chainx.OrphanParent {
-			for _, x := range revertedBetween(t, bt, at) {
-				if d := decls[x]; d != nil && d.Unstable {
-					tainted = true
-				}
+		for _, x := range t.Reverted(bt, at, failedTarget) {
+			if d := decls[x]; d != nil && d.Unstable {
+				tainted = true
 			}
 		}
 	}
